@@ -600,6 +600,9 @@ class Cluster(object):
             sn.dead = False
         elif k == 'Restart':
             sn = self.nodes[act[1]]
+            for (i, j) in list(self.net.chan):
+                if i == act[1]:
+                    self.net.chan[(i, j)] = []      # what the previous incarnation had sent is gone by now
             self._start(act[1], self.voters if sn.voter else self.voters, voter=sn.voter)
         else:
             raise ValueError(act)
